@@ -6,8 +6,35 @@ let out_names (r : n list list outcome) : string =
   | Err ERANGE -> "ERR"
   | Fault _ -> "FAULT"
 
+let errname e = match e with EINVAL -> "EINVAL" | ERANGE -> "ERANGE"
+
+let print_result (r : (n list * nat option) outcome) : string =
+  match r with
+  | Ok (buf, ret) ->
+    let rs = match ret with Some k -> string_of_int (int_of_nat k) | None -> "-1" in
+    (match cstring buf with
+     | Some s -> rs ^ " " ^ hex_of_bytes s
+     | None -> rs ^ " UNTERMINATED")
+  | Err _ -> "ERR"
+  | Fault _ -> "FAULT"
+
+let rec fill (k : int) (acc : n list) : n list = if k <= 0 then acc else fill (k - 1) (n_of_int 170 :: acc)
+
 let handle (w : string list) : string =
   match w with
+  | ["parse"; h] ->
+    (match create (bytes_of_hex h) with
+     | Ok hl -> "N=" ^ string_of_int (int_of_z hl.nhosts) ^ " OK " ^ hexlist (iter_all hl.ranges)
+     | Err e -> "ERR " ^ errname e
+     | Fault _ -> "FAULT")
+  | ["ranged"; h; n] ->
+    (match create (bytes_of_hex h) with
+     | Ok hl -> print_result (ranged_string hl.ranges (fill (int_of_string n) []))
+     | _ -> "ERR")
+  | ["deranged"; h; n] ->
+    (match create (bytes_of_hex h) with
+     | Ok hl -> print_result (deranged_string hl.ranges (fill (int_of_string n) []))
+     | _ -> "ERR")
   | ["targets"; h] -> out_names (targets (bytes_of_hex h))
   | ["targets1"; h] -> out_names (targets1 (bytes_of_hex h))
   | _ -> "MODEL-BADCASE"
